@@ -83,6 +83,13 @@ def _hdr_get(e, name):
     return isinstance(e, ast.Call) and isinstance(e.func, ast.Attribute) and e.func.attr == "get" and e.args and isinstance(e.args[0], ast.Constant) and isinstance(e.args[0].value, str) and e.args[0].value.lower() == name.lower()
 
 
+def _hdr_read(e, name):
+    """``<x>.get("<name>"...)`` or ``<x>["<name>"]``"""
+    if _hdr_get(e, name):
+        return True
+    return isinstance(e, ast.Subscript) and isinstance(e.slice, ast.Constant) and isinstance(e.slice.value, str) and e.slice.value.lower() == name.lower()
+
+
 def _mentions_hdr(e, name):
     return any(isinstance(x, ast.Constant) and isinstance(x.value, str) and x.value.lower() == name.lower() for x in ast.walk(e))
 
@@ -184,14 +191,20 @@ def rule_gate(ck):
             saw_origin = False
             for s in sts:
                 v = s.value
-                if _hdr_get(v, "Origin"):
+                if _hdr_read(v, "Origin"):
                     saw_origin = True
-                elif _hdr_get(v, "Sec-Websocket-Origin"):
+                elif _hdr_read(v, "Sec-Websocket-Origin"):
                     nodes = [n for n in cfg.stmt_nodes(lambda n: n.ast is s)]
                     # the legacy header is only used when there is no Origin header
                     okp = okp and all(any((pol is False and "Origin" in txt and " in " in txt) or (pol is True and txt == "%s is None" % arg and saw_origin) for (txt, pol) in facts[n.id]) for n in nodes)
                 else:
-                    okp = False
+                    hdrs = {x.value.lower() for x in ast.walk(v) if isinstance(x, ast.Constant) and isinstance(x.value, str)}
+                    if hdrs and not (hdrs & {"origin", "sec-websocket-origin"}):
+                        okp = False  # positively another header / constant
+                    else:
+                        raise AnalysisError("WebSocketHandler.get: where the origin value comes from (%s) is not in a recognised form" % q.unparse(v)[:60])
+            if not sts:
+                raise AnalysisError("WebSocketHandler.get: the argument of check_origin is not a local bound in get()")
             ck.ob(R, g, cocall, okp and saw_origin, "the value handed to check_origin is the Origin header (Sec-Websocket-Origin only when Origin is absent)", construct="origin provenance: " + q.normalize_construct(cocall, q.local_names(g.node)))
         # --- version / protocol object
         recv = q.dotted(acall.func.value)
